@@ -218,6 +218,12 @@ class GarbageCollector:
             basename = norm_marker.rsplit("/", 1)[-1]
             if not basename.endswith(".inflight"):
                 continue
+            if basename.startswith(".tmp."):
+                # Temp file of a marker being written right now (write_file is
+                # temp + rename): not a marker yet. The file it will protect
+                # is written only after the rename, so it is younger than any
+                # grace period that exceeds this run.
+                continue
             data_rel: Optional[str]
             try:
                 data_rel = self._marker_target(norm_marker, basename)
